@@ -41,7 +41,23 @@ impl BinGen {
     }
     /// a heap binary expression (rope of depth 1-3, or a repeat, or a slice)
     pub fn heap(&mut self, rng: &mut Rng) -> (String, Vec<u8>) {
-        match rng.below(6) {
+        match rng.below(7) {
+            6 => {
+                // a window into a tiling that starts mid-unit, runs over whole units and ends mid-unit
+                let mut unit = Vec::new();
+                for _ in 0..(2 + rng.usize(3)) {
+                    self.ctr = self.ctr.wrapping_add(1).max(0x11);
+                    unit.push(self.ctr);
+                }
+                let n = 3 + rng.usize(4);
+                let all = unit.repeat(n);
+                let start = 1 + rng.usize(unit.len() - 1);
+                let mut end = all.len() - 1 - rng.usize(unit.len() - 1);
+                if end % unit.len() == 0 {
+                    end -= 1;
+                }
+                (format!("[[0x{}, {n}] __binary_repeat__, {start}, {end}] __binary_slice__", crate::canon::hex(&unit)), all[start..end].to_vec())
+            }
             0 => {
                 let (p, b) = self.piece(rng);
                 let n = 2 + rng.usize(3);
